@@ -334,19 +334,7 @@ func classifyLoop(p *Prog, fn *ssa.Function, li *loopInfo, pf map[*ssa.Function]
 			if !li.blocks[li.header.Preds[i]] {
 				continue
 			}
-			sl, ok := e.(*ssa.Slice)
-			if !ok || sl.X != ssa.Value(ph) || sl.Low == nil {
-				good = false
-				break
-			}
-			base, k := linear(sl.Low)
-			if c, isC := constInt(base); isC {
-				k += c
-			} else if !nonNegByType(base) {
-				good = false
-				break
-			}
-			if k < 1 {
+			if drop, ok := droppedPrefix(e, ph, 0); !ok || drop < 1 {
 				good = false
 				break
 			}
@@ -620,4 +608,35 @@ func recursionCycles(p *Prog, fns []*ssa.Function) []string {
 		}
 	}
 	return nil
+}
+
+// droppedPrefix: v is ph cut by a chain of slice expressions ph[a:][b:c]…; the result is a lower
+// bound of the number of leading elements dropped (each low bound is a constant, a value that is
+// non-negative by its type, or their sum).
+func droppedPrefix(v ssa.Value, ph *ssa.Phi, depth int) (int64, bool) {
+	if v == ssa.Value(ph) {
+		return 0, true
+	}
+	sl, ok := v.(*ssa.Slice)
+	if !ok || depth > 6 {
+		return 0, false
+	}
+	d, ok := droppedPrefix(sl.X, ph, depth+1)
+	if !ok {
+		return 0, false
+	}
+	if sl.Low == nil {
+		return d, true
+	}
+	base, k := linear(sl.Low)
+	if c, isC := constInt(base); isC {
+		if c+k < 0 {
+			return 0, false
+		}
+		return d + c + k, true
+	}
+	if !nonNegByType(base) || k < 0 {
+		return 0, false
+	}
+	return d + k, true
 }
